@@ -79,7 +79,9 @@ TCancelReq == /\ Is("MCancelReq") /\ l' = l + 1
 \* "canceled": the answer to a cancel request, the consequence of a failed send, or the end of the stream -- never out of the blue
 TCanceled == /\ Is("MCanceled") /\ l' = l + 1
              /\ IF E.id \in Ids
-                THEN /\ viol' = viol \cup V(closed \/ ws[E.id].creq \/ ws[E.id].st # "open", "MuxNoSpuriousCancel")
+                THEN /\ viol' = viol \cup V(closed \/ ws[E.id].creq \/ ws[E.id].st # "open"
+                                       \* (the backend may refuse a watch at its start -- "compacted", the client lists again: C05's "or is closed")
+                                       \/ (E.compact >= 1 /\ ws[E.id].got = << >>), "MuxNoSpuriousCancel")
                      /\ ws' = [ws EXCEPT ![E.id].st = IF @ = "open" THEN "cancelled" ELSE @,
                                          ![E.id].endedAt = IF ws[E.id].st = "open" THEN Rev ELSE @]
                 ELSE UNCHANGED <<viol, ws>>
